@@ -63,7 +63,7 @@ var vc15NameAlphabet = []string{
 
 var vc15RuleAlphabet = []string{
 	"||", "^", "$dnsrewrite=NOERROR;A;1.2.3.4", "@@", "/re[gG]ex/", `"`, `\`, "\n", "\r\n", "\t", "<script>", "&amp;", "правило", "\u2029",
-	"example.org", "|", "*", "$important,dnstype=~A", strings.Repeat("long-rule-", 40), "}{", "\",\"f\":0,\"x\":\"",
+	"example.org", "|", "*", "$important,dnstype=~A", strings.Repeat("long-rule-", 40), strings.Repeat("very-long-rule-", 400), "}{", "\",\"f\":0,\"x\":\"",
 }
 
 func vc15DrawText(t *rapid.T, label string, alphabet []string, maxParts int) string {
@@ -146,7 +146,7 @@ func vc15DrawEntry(t *rapid.T, label string) (e *querylog.Entry, k vc15Key) {
 func vc15Concurrent(tt *testing.T, part string, perWriterMax int) {
 	st := vstat.New("C15", part,
 		"rapid: 16 goroutines x 1-N generated entries (names and rule texts needing JSON escaping, line feeds inside rule texts, long rules, optional client address) written through one querylog.FileSystem after a start barrier; non-trivial = at least two writers were inside Write at the same time (measured); distinct by the multiset of written keys",
-		"overlap>=2", "overlap>=8", "rule-with-linefeed", "long-line>4096", "with-ip", "without-ip")
+		"overlap>=2", "rule-with-linefeed", "long-line>4096", "with-ip", "without-ip")
 	st.Finish(tt)
 
 	dir := tt.TempDir()
